@@ -205,3 +205,7 @@ def run(ctx):
     n = 900 if ctx.tier == "quick" else 20000
     stream.run_stream(ctx, "fuse", "harness.props.c05", "gen_cases", n, per_chunk=60,
                       canon_kw=dict(drop_zero=True))
+
+
+def replay(ctx, payload):
+    return stream.replay(ctx, payload, canon_kw=dict(drop_zero=True))
